@@ -9,10 +9,11 @@ PY = "/venv/bin/python"
 
 # property -> (technique, level text, level note, design ref)
 CHECKS = {
-    "C01": ("TLA+ EnvAPI/MDP spec: TLC exhaustive + trace validation of real env.reset/step (C2S)",
+    "C01": ("TLA+ EnvAPI/MDP spec: TLC exhaustive + trace validation of real env.reset/step (C2S) + edge cover of the model graph on the real objects (S2C)",
             "TLC checks EnvAPI.tla (reset/step machine over wrapped finite MDPs) exhaustively on small configurations; "
             "thousands of traces recorded from the real env.reset/env.step on table MDPs under real wrapper stacks, and "
-            "from the built-in environments with opaque dynamics, are validated event by event against the specification.",
+            "from the built-in environments with opaque dynamics, are validated event by event against the specification; "
+            "every action of every reachable state of the bounded model is executed on the real wrapper stack and judged by TLC.",
             "TableEnv stand-in and projection in lvf/tables.py; dyadic values so float32 is exact; built-in environments: "
             "value relations up to tolerance (atoms).",
             "DESIGN.md section 4 C01"),
@@ -118,8 +119,8 @@ CHECKS = {
             "auto-reset) so that every observation is attributed to the right state, and the invariant that every typing / membership "
             "atom holds in every state of every trace; rollouts of every built-in environment class x options x wrapper stacks under "
             "sampled and bound-corner action schedules are validated; atoms come from a numpy oracle independent of lerax's spaces.",
-            "thin use of the specification, said so: reachable continuous states are sampled, not enumerated; MuJoCo / G1 coverage is "
-            "deeper in the thorough tier (compile times).",
+            "thin use of the specification, said so: reachable continuous states are sampled (plus an extremal search for classic "
+            "control), not enumerated; all eleven MuJoCo classes run in both tiers, G1 in the thorough tier only (compile times).",
             "DESIGN.md section 4 C02"),
     "C11": ("TLA+ Purity spec (lock-step self-composition, leaking mutant as vacuity guard) + families of real learn() runs validated by TLC",
             "TLC checks that two lock-step copies of the training loop with arbitrary observer states never diverge (and that a "
@@ -133,17 +134,20 @@ CHECKS = {
             "(b) every environment stream of real vmapped on-policy and off-policy collections (num_envs 2..3) must be a behaviour of "
             "the single-environment OnPolicy / OffPolicy specification started in its own carried state (own GAE, own ring, own "
             "statistics): anything crossing streams is unexplainable there. (a) eager = jit = vmap for environment functions is an "
-            "atom inside the built-in environment traces.",
+            "atom inside the built-in environment traces. (c) the streams of one vmapped collection must not be copies of each other "
+            "(per-environment keys): probe MDP that redraws its state at every step.",
             "(a) is numeric and thin (recorded states, tolerance 1e-5); (b) relies on leaked rows being unexplainable in the receiving stream.",
             "DESIGN.md section 4 C12"),
-    "C17": ("TLA+ RefMDP spec (qualitative Gymnasium reference semantics) + threshold probes of the real classic-control environments judged by TLC; MuJoCo consistency atoms",
+    "C17": ("TLA+ RefMDP spec (qualitative Gymnasium reference semantics) + threshold probes of the real classic-control environments judged by TLC; differential comparison with the installed Gymnasium environments as atoms",
             "RefMDP.tla states termination predicate, reward of every transition incl. the goal / terminal step and the left-wall rule "
             "of the four classic-control counterparts; lerax environments are placed next to every threshold (thresholds read from "
             "the installed Gymnasium objects) and every probe is judged; initial-state ranges and, for MuJoCo, kinematic consistency "
             "of handed-out states and reward book-keeping are atoms.",
-            "NOT decided: equality of vector fields / integrated trajectories with Gymnasium and of MuJoCo observations, reward "
-            "components and termination with Gymnasium v5 (numeric comparison with an external simulator; no state-machine content).",
-            "DESIGN.md section 4 C17, section 5"),
+            "Vector fields, time steps, CartPole/Euler trajectories and, for all eleven MuJoCo classes, observation / reward / same-named "
+            "reward components / termination from the same physical state and action are compared numerically with the installed "
+            "Gymnasium (v5) environments by the harness (tolerances measured, DESIGN.md 9.8) and only collected by the trace "
+            "specification: that part has no state-machine content.",
+            "DESIGN.md section 4 C17, section 9.8"),
     "C20": ("TLA+ Gait spec (integer tick model, exact rational foot height): TLC exhaustive + real gait functions on tick grids validated; G1 episodes as atoms (thorough)",
             "Gait.tla proves on tick grids that both phases stay in range, half a cycle apart and advance by the increment, and that "
             "the Bezier foot height stays within [0, swing], vanishes at -pi and peaks at 0; the real advance_gait_phase / "
